@@ -14,9 +14,10 @@ import (
 
 // C15: users' assets are never minted or destroyed by the protocol.
 type C15 struct {
-	st   *Stats
-	prev map[string]math.Int
-	n    int
+	st     *Stats
+	prev   map[string]math.Int
+	prevTS map[string]math.Int
+	n      int
 }
 
 func NewC15() *C15           { return &C15{st: NewStats("C15")} }
@@ -153,6 +154,25 @@ func (m *C15) AfterCommit(w *chain.World, blk *chain.BlockRecord) {
 			}
 		}
 	}
+	// share tokens move only against the pool's own books: the supply of amm/pool/<id> and the
+	// pool's recorded TotalShares change by the same amount in every block
+	curTS := map[string]math.Int{}
+	for _, p := range a.AmmKeeper.GetAllPool(ctx) {
+		d := ammtypes.GetPoolShareDenom(p.PoolId)
+		curTS[d] = p.TotalShares.Amount
+		if m.prevTS != nil && m.prev != nil {
+			if pt, ok := m.prevTS[d]; ok {
+				ds := zi(cur, d).Sub(zi(m.prev, d))
+				dt := p.TotalShares.Amount.Sub(pt)
+				m.st.Eval("sharebooks/"+d, p.TotalShares.Amount.String())
+				if !ds.Equal(dt) {
+					w.Report(chain.Violation{Property: "C15", Rule: "C15.share_supply_moves_with_pool_books", Scope: sc("denom_class", "pool_share"), Ops: ops, Relation: "supply_delta-books_delta=" + ds.Sub(dt).String(),
+						Detail: fmt.Sprintf("block %d: supply of %s changed by %s but the pool's recorded total shares changed by %s: shares were minted or burned without the matching deposit / withdrawal in the pool's books", w.Height, d, ds, dt)})
+				}
+			}
+		}
+	}
+	m.prevTS = curTS
 	m.prev = cur
 	// sum of all balances == supply (every 8th block; it walks every account)
 	m.n++
